@@ -36,6 +36,9 @@ def configs(tier, seed):
     for nsub in list(range(5, 18)) + ([33] if tier == "thorough" else []):
         cfgs.append({"aw": 8, "dw": 8, "align": 0,
                      "subs": [{"aw": 1 + (i % 3 == 0), "name": None if i % 4 == 1 else f"m{i}", "addr": None} for i in range(nsub)]})
+    # an add() refused for a taken window name (k % 4 == 2) / the same subordinate added twice (k % 4 == 3), mid-history and at the end
+    for n, where in ((2, [2]), (3, [3]), (4, [2, 3]), (7, [3, 6, 7])):
+        cfgs.append({"aw": 7, "dw": 8, "align": 0, "refused_before": where, "subs": [{"aw": 1 + i % 2, "name": f"n{i}", "addr": None} for i in range(n)]})
     for c in cfgs:
         c["directed"] = True          # hand-written window sets are valid by construction: a refusal is a violation (must_accept)
     n = 60 if tier == "quick" else 1200
@@ -84,6 +87,26 @@ def build(cfg, upto=None):
     def refused_add(dec, k):
         """an add() the decoder must refuse (window larger than the decoder's space / other data width): afterwards the
         decoder must behave exactly as if the call had never been made (a refused call leaves no trace)"""
+        taken = [sc["name"] for sc in cfg["subs"][:len(subs)] if sc["name"]]
+        if k % 4 == 2 and taken:
+            # a perfectly valid subordinate under a window name that is already taken: refused for its NAME only
+            sb = csr.Interface(addr_width=1, data_width=cfg["dw"], path=(f"refused{k}",))
+            sb.memory_map = MemoryMap(addr_width=1, data_width=cfg["dw"])
+            REFUSED.append(sb)
+            try:
+                dec.add(sb, name=taken[-1])
+                raise AssertionError(f"a second window named {taken[-1]!r} was accepted")
+            except (ValueError, TypeError):
+                pass
+            return
+        if k % 4 == 3 and subs:
+            # the SAME subordinate a second time: refused, and its first registration must survive
+            try:
+                dec.add(subs[-1], name=f"again{k}")
+                raise AssertionError("a subordinate was accepted twice")
+            except (ValueError, TypeError):
+                pass
+            return
         bad_aw, bad_dw = (cfg["aw"] + 1, cfg["dw"]) if k % 2 == 0 else (1, cfg["dw"] * 2)
         sb = csr.Interface(addr_width=bad_aw, data_width=bad_dw, path=(f"refused{k}",))
         sb.memory_map = MemoryMap(addr_width=bad_aw, data_width=bad_dw)
